@@ -54,6 +54,10 @@ func runC02(c *Ctx) {
 	} else {
 		r.Fail("X10", "v1:priority.Discipline", "-", "UNRESOLVED-ANCHOR: v1 priority discipline not found")
 	}
+	// X13: the handlers exist
+	r.Doc("X13", "simplified disciplines: the handler goroutines are started on every successful construction", 2)
+	checkHandlersStarted(c, c.V1, "X13")
+	checkHandlersStarted(c, c.V2, "X13")
 	// X12: valid configurations are accepted
 	r.Doc("X12", "constructors refuse a configuration only on a missing / out-of-range test (v1 priority and simplified, v2 simplified)", 6)
 	checkCtorRefusals(c, c.V1, c.V1.Disc("priority.Discipline"), "X12")
@@ -72,7 +76,7 @@ func runC02(c *Ctx) {
 		checkD2(sub, pr)
 		checkP2(sub, pr)
 		for _, o := range sub.R.Obls {
-			if strings.HasSuffix(o.Key, ".removePriority") || strings.HasSuffix(o.Key, "#append-unique") || strings.HasSuffix(o.Key, "#unregister") || strings.HasSuffix(o.Key, "#list") {
+			if strings.HasSuffix(o.Key, ".removePriority") || strings.HasSuffix(o.Key, "#append-unique") || strings.HasSuffix(o.Key, "#registered-appended") || strings.HasSuffix(o.Key, "#unregister") || strings.HasSuffix(o.Key, "#list") {
 				r.Check(o.OK, "X11", o.Key, o.Site, o.Detail, o.Detail)
 			}
 		}
@@ -334,6 +338,9 @@ func c02registration(c *Ctx, p *Prog) {
 							// the ranged map must itself be the user's Inputs (or a parameter fed with it)
 							src := p.Sym(rg.X)
 							if par, isPar := rg.X.(*ssa.Parameter); isPar {
+								if len(p.CallSites(fn)) == 0 {
+									return false, "the registration loop over the configured inputs is never called: configured inputs are not registered"
+								}
 								for _, cs := range p.CallSites(fn) {
 									a := cs.Common().Args[paramIndex(fn, par)]
 									as := p.Sym(a)
